@@ -80,6 +80,22 @@ class St:
         self.effects = self.effects + (eff,)
 
 
+def expand_struct_locals(env):
+    """A local that holds a struct value field by field (`offsets = Offsets { read: .., processed: .. }`) is also visible
+    as one pseudo-local per field, `<id>.<field>`: rules that follow a loop-carried offset do not care whether it is a
+    local of its own or a field of a private struct."""
+    extra = {}
+    for lid, v in env.items():
+        if isinstance(v, tuple) and v and v[0] == "struct" and isinstance(lid, str):
+            for (fname, t) in v[2]:
+                extra["%s.%s" % (lid, fname)] = t
+    if not extra:
+        return env
+    e2 = dict(env)
+    e2.update(extra)
+    return e2
+
+
 class Exit:
     """One enumerated path."""
     __slots__ = ("kind", "conds", "effects", "value", "env", "extra")
@@ -88,7 +104,7 @@ class Exit:
         self.kind = kind            # return | err | panic | backedge | break_out | unsupported
         self.conds = st.conds
         self.effects = st.effects
-        self.env = st.env
+        self.env = expand_struct_locals(st.env)
         self.value = value
         self.extra = extra
 
@@ -126,6 +142,7 @@ class PathSum:
             self.enums.update(enums)
         self.closures = {}
         self._closure_refs = {}
+        self._alias = {}               # helper parameter id -> caller local id (by-value parameter fed from a plain local)
         self.curried = set()           # parser factories written in uncurried form (ctx.., input)
         self._tsub = {}                # type parameter -> type, while a generic helper is evaluated in place
         self.take_while_fn = None      # def path of the library's take_while combinator, when the analysed crate has one
@@ -302,7 +319,7 @@ class PathSum:
             return [st], []
         if k == "Bind":
             s2 = st.fork()
-            s2.env[p["id"]] = t
+            s2.env[self._alias.get(p["id"], p["id"])] = t
             if "sub" in p:
                 return self.match_pat(s2, t, p["sub"])
             return [s2], []
@@ -468,7 +485,8 @@ class PathSum:
     def ev_Path(self, e, st):
         r = e["res"]
         if r["r"] == "Local":
-            return [("val", st, st.env.get(r["id"], ("local", r["id"], r["name"])))]
+            rid_ = self._alias.get(r["id"], r["id"])
+            return [("val", st, st.env.get(rid_, ("local", rid_, r["name"])))]
         if r["r"] == "Def":
             dk = r["dk"]
             if dk.startswith("Ctor"):
@@ -626,9 +644,21 @@ class PathSum:
                 out.append(o)
                 continue
             s, v = o[1], o[2]
+            fld = self._struct_field_target(lhs, s)
+            if fld is not None:
+                # `x.f = v` / `x.f op= v` on a local that holds a struct value: the value is updated field by field
+                lid, fname, cur_struct = fld
+                s = s.fork()
+                oldv = self.field(cur_struct, fname)
+                if op:
+                    s.add_effect(("arith", op, oldv, v, loc(l), tuple((node_sp or l.get("sp")) or ())))
+                    v = ("bin", op, oldv, v)
+                s.env[lid] = ("struct", cur_struct[1], tuple((n, (v if n == fname else t)) for (n, t) in cur_struct[2]))
+                out.append(("val", s, UNIT))
+                continue
             if lhs["k"] == "Path" and lhs["res"]["r"] == "Local":
                 s = s.fork()
-                lid = lhs["res"]["id"]
+                lid = self._alias.get(lhs["res"]["id"], lhs["res"]["id"])
                 if op:
                     old = s.env.get(lid, ("local", lid, lhs["res"]["name"]))
                     s.add_effect(("arith", op, old, v, loc(l), tuple((node_sp or l.get("sp")) or ())))
@@ -644,6 +674,21 @@ class PathSum:
                     s2.add_effect(("store", o2[2], v, op, loc(l)))
                     out.append(("val", s2, UNIT))
         return out
+
+    def _struct_field_target(self, lhs, st):
+        """lhs = <local>.<field> (through derefs / reborrows) where the local currently holds a struct value with that
+        field -> (local id, field name, struct term)"""
+        if lhs.get("k") != "Field":
+            return None
+        base = lhs["e"]
+        while base.get("k") in ("Unary", "AddrOf", "DropTemps", "Use") and (base.get("k") != "Unary" or base.get("op") == "Deref"):
+            base = base["e"]
+        if base.get("k") == "Path" and base["res"].get("r") == "Local":
+            bid = self._alias.get(base["res"]["id"], base["res"]["id"])
+            cur = st.env.get(bid)
+            if isinstance(cur, tuple) and cur and cur[0] == "struct" and any(n == lhs["name"] for n, _ in cur[2]):
+                return bid, lhs["name"], cur
+        return None
 
     def ev_Await(self, e, st):
         def f(s, v):
@@ -834,7 +879,7 @@ class PathSum:
                 while tgt.get("k") in ("Field", "Index", "Unary"):
                     tgt = tgt["e"]
                 if tgt.get("k") == "Path" and tgt["res"].get("r") == "Local":
-                    ids[tgt["res"]["id"]] = tgt["res"]["name"]
+                    ids[self._alias.get(tgt["res"]["id"], tgt["res"]["id"])] = tgt["res"]["name"]
         return ids
 
     def _loop(self, e, st, body_fn, exits_on_cond):
@@ -843,9 +888,17 @@ class PathSum:
         site = loc(e)
         label = e.get("label")
         info = self.loops.setdefault(site, {"entry": [], "vars": {}})
-        info["entry"].append(st)
+        est = st.fork()
+        est.env = expand_struct_locals(est.env)
+        info["entry"].append(est)
         head = st.fork()
         for lid, name in self._assigned_locals(e).items():
+            cur = st.env.get(lid)
+            if isinstance(cur, tuple) and cur and cur[0] == "struct" and cur[2]:
+                head.env[lid] = ("struct", cur[1], tuple((fn_, ("loopvar", "%s.%s" % (lid, fn_), "%s.%s" % (name, fn_), site)) for (fn_, _) in cur[2]))
+                for (fn_, _) in cur[2]:
+                    info["vars"]["%s.%s" % (lid, fn_)] = "%s.%s" % (name, fn_)
+                continue
             head.env[lid] = ("loopvar", lid, name, site)
             info["vars"][lid] = name
         head.add_effect(("loop_head", site))
@@ -1033,19 +1086,30 @@ class PathSum:
         self._inl_stack.append(callee)
         # generic helper: its type parameters stand for the generic arguments of this call
         old_sub = self._tsub
+        added = []
         gn, ga = b.get("generics") or [], (node or {}).get("gargs") or []
         if gn and len(gn) == len(ga):
             self._tsub = dict(old_sub)
             self._tsub.update({n: old_sub.get(a, a) for n, a in zip(gn, ga) if not n.startswith("'")})
         try:
             s = st
+            restore, added = self._value_aliases(b, node, st)
             for p, a in zip(b["params"], args):
                 m, _ = self.match_pat(s, a, p)
                 if not m:
                     return []
                 s = m[0]
+            back = self._mut_ref_args(b, node)
             res = []
             for o in self.ev(b["value"], s):
+                if (back or restore) and o[0] in ("val", "ret", "err"):
+                    s3 = o[1].fork()
+                    for (pid_, lid_) in back:
+                        if pid_ in s3.env:
+                            s3.env[lid_] = s3.env[pid_]
+                    for (lid_, before) in restore:
+                        s3.env[lid_] = before       # the helper worked on its own copy
+                    o = (o[0], s3) + tuple(o[2:])
                 if o[0] in ("val", "ret", "err"):
                     res.append(("val", o[1], o[2]))
                 else:
@@ -1055,6 +1119,70 @@ class PathSum:
             self._inl_depth -= 1
             self._inl_stack.pop()
             self._tsub = old_sub
+            for k_ in added:
+                self._alias.pop(k_, None)
+
+    def _value_aliases(self, b, node, st):
+        """A by-value parameter that the helper assigns in a loop and that is fed from a plain local of the caller
+        (`mut proc_offset: usize` <- `proc_offset`) is evaluated under the caller's local id, so that a loop moved into a
+        helper carries the same variables as before; the caller's local gets its own value back when the helper returns.
+        -> [(caller local id, value before the call)]"""
+        added = []
+        if not node:
+            return [], added
+        argn = ([node["recv"]] if node.get("k") == "MethodCall" else []) + list(node.get("args") or [])
+        assigned = self._assigned_locals(b["value"])
+        # `async fn`: the coroutine body re-binds every parameter (`let mut p = p;`) - the re-binding is the variable
+        from hir import walk, strip
+        rebind = {}
+        for x_ in walk(b["value"]):
+            if x_.get("k") == "Block":
+                for st_ in x_["stmts"]:
+                    if st_["k"] == "Let" and st_["pat"].get("k") == "Bind" and "init" in st_:
+                        i_ = strip(st_["init"])
+                        if i_.get("k") == "Path" and i_["res"].get("r") == "Local":
+                            rebind.setdefault(i_["res"]["id"], st_["pat"]["id"])
+        out = []
+        for p_, a_ in zip(b["params"], argn):
+            pty = p_.get("ty") or ""
+            by_mut_ref = pty.startswith("&mut ")
+            if p_.get("k") != "Bind" or ("&" in pty and not by_mut_ref):
+                continue
+            ids_ = [p_["id"]] + ([rebind[p_["id"]]] if p_["id"] in rebind else [])
+            if not any(i_ in assigned for i_ in ids_):
+                continue
+            a2 = a_
+            while isinstance(a2, dict) and (a2.get("k") in ("DropTemps", "Use") or (by_mut_ref and (a2.get("k") == "AddrOf" or (a2.get("k") == "Unary" and a2.get("op") == "Deref")))):
+                a2 = a2["e"]
+            if isinstance(a2, dict) and a2.get("k") == "Path" and a2["res"].get("r") == "Local":
+                lid = self._alias.get(a2["res"]["id"], a2["res"]["id"])
+                if lid in self._alias.values() or p_["id"] in self._alias:
+                    continue
+                for i_ in ids_:
+                    self._alias[i_] = lid
+                    added.append(i_)
+                if not by_mut_ref:
+                    out.append((lid, st.env.get(lid, ("local", lid, a2["res"]["name"]))))
+        return out, added
+
+    def _mut_ref_args(self, b, node):
+        """(helper parameter id, caller local id) for every `&mut <local>` argument (or auto-borrowed `&mut self` receiver)
+        of a call that is evaluated in place: what the helper leaves in the parameter is what the caller's local holds
+        afterwards."""
+        if not node:
+            return []
+        from hir import strip
+        argn = ([node["recv"]] if node.get("k") == "MethodCall" else []) + list(node.get("args") or [])
+        out = []
+        for p_, a_ in zip(b["params"], argn):
+            if p_.get("k") != "Bind" or "&mut" not in (p_.get("ty") or ""):
+                continue
+            a2 = a_
+            while isinstance(a2, dict) and a2.get("k") in ("AddrOf", "DropTemps", "Use") or (isinstance(a2, dict) and a2.get("k") == "Unary" and a2.get("op") == "Deref"):
+                a2 = a2["e"]
+            if isinstance(a2, dict) and a2.get("k") == "Path" and a2["res"].get("r") == "Local":
+                out.append((p_["id"], a2["res"]["id"]))
+        return out
 
     def call_fn_term(self, ft, args, st, site, node):
         if ft[0] == "closure":
